@@ -25,9 +25,13 @@ def bracketing(ctx):
             for c in ast.walk(n.ast))]
     start = calls('self.start_dbg_info')
     end = calls('self.end_dbg_info')
+    from ..astutil import local_defs
+    gvars = {name for name, ds in local_defs(f.node).items()
+             if any(k == 'assign' and 'generator_funcs' in unparse(v)
+                    for k, v in ds)}
     gen = [n for n in cfg.nodes if n.kind == 'stmt' and any(
         isinstance(c, ast.Call) and isinstance(c.func, ast.Name) and
-        c.func.id == 'gen' for c in ast.walk(n.ast))]
+        c.func.id in gvars for c in ast.walk(n.ast))]
     construct = f'{f.file}:BaseCodeGen.gen_code_for_node'
     ctx.instance(rule, construct, sample={'start': len(start), 'end':
                                           len(end), 'gen': len(gen)})
@@ -96,6 +100,7 @@ def bracketing(ctx):
 
 
 def collector_offsets(ctx):
+    from .. import pat
     repo = ctx.repo
     rule = 'C11.offsets-are-instruction-boundaries'
     ctx.rule(rule, 'the debug collector is fed only cur_offset (an '
@@ -103,23 +108,27 @@ def collector_offsets(ctx):
              'innermost open start of the same node')
     asm = repo.func('qbee.qvm_codegen', 'QvmCode.assembled')
     n = 0
+    from .. import pat
+    n_, b_ = pat.first('_OFF += 1 + len(_B)', asm.node)
+    if b_ is None:
+        raise AnalysisError('anchor vanished: code offset update')
+    offvar = unparse(b_['_OFF'])
     for c in ast.walk(asm.node):
-        if isinstance(c, ast.Call) and (dotted(c.func) or '').startswith(
-                'dbg_collector.') and dotted(c.func).split('.')[1] in (
-                'start_node', 'end_node', 'mark_empty_block'):
+        if isinstance(c, ast.Call) and isinstance(c.func, ast.Attribute) \
+                and c.func.attr in ('start_node', 'end_node',
+                                    'mark_empty_block') and c.args:
             n += 1
             off = unparse(c.args[-1])
-            construct = f'{asm.file}:QvmCode.assembled:{dotted(c.func)}'
+            construct = f'{asm.file}:QvmCode.assembled:{c.func.attr}'
             ctx.instance(rule, construct, sample={'offset': off})
-            if off != 'cur_offset':
+            if off != offvar:
                 ctx.finding(rule, construct,
-                            f'{dotted(c.func)} receives {off} instead of '
-                            f'cur_offset', asm.file, c.lineno)
+                            f'{c.func.attr} receives {off} instead of the '
+                            f'running code offset', asm.file, c.lineno)
     ctx.floor('collector feed sites', n, 3)
     en = repo.func('qvm.debug_info', 'DebugInfoCollector.end_node')
-    txt = unparse(en.node)
-    ok = 'self._stack.pop()' in txt and \
-        'self._nodes.append((node, start_offset, code_offset))' in txt
+    ok = pat.has('_SN, _SO = self._stack.pop()\n...\n'
+                 'self._nodes.append((node, _SO, code_offset))', en.node)
     ctx.instance(rule, f'{en.file}:DebugInfoCollector.end_node')
     if not ok:
         ctx.finding(rule, f'{en.file}:DebugInfoCollector.end_node',
@@ -142,29 +151,29 @@ def source_positions(ctx):
              'node and all its children; records take their line from '
              'node.loc_start via convert_index_to_line_col')
     ps = repo.func('qbee.grammar', 'parse_stmt')
-    txt = unparse(ps.node)
-    ok = 'tok.loc_start = loc_start' in txt and \
-        'tok.loc_end = loc_end' in txt and 'for tok in toks:' in txt
+    from .. import pat
+    ok = pat.has('_LS, _T, _LE = toks\n...\n'
+                 'for _K in _T:\n    _K.loc_start = _LS\n'
+                 '    _K.loc_end = _LE', ps.node)
     ctx.instance(rule, f'{ps.file}:parse_stmt')
     if not ok:
         ctx.finding(rule, f'{ps.file}:parse_stmt',
                     'parse_stmt no longer stamps loc_start/loc_end on every '
                     'statement token', ps.file, ps.line)
     un = repo.func('qbee.parser', 'update_node_loc')
-    txt = unparse(un.node)
-    ok = 'node.loc_start += offset' in txt and \
-        'node.loc_end += offset' in txt and \
-        'for child in node.children:' in txt and \
-        'update_node_loc(child, offset)' in txt
+    ok = pat.has('node.loc_start += offset', un.node) and \
+        pat.has('node.loc_end += offset', un.node) and \
+        pat.has('for _C in node.children:\n'
+                '    update_node_loc(_C, offset)', un.node)
     ctx.instance(rule, f'{un.file}:update_node_loc')
     if not ok:
         ctx.finding(rule, f'{un.file}:update_node_loc',
                     'update_node_loc no longer shifts the node and all its '
                     'children by the line offset', un.file, un.line)
     p = repo.func('qbee.parser', 'parse_string')
-    txt = unparse(p.node)
-    ok = 'update_node_loc(stmt, line_loc)' in txt and \
-        'line_loc += len(line) + 1' in txt
+    ok = pat.has('for _LINE in input_string.split(\'\\n\'):\n    ...\n'
+                 '    for _S in __:\n        update_node_loc(_S, _LL)\n'
+                 '        ...\n    _LL += len(_LINE) + 1', p.node)
     ctx.instance(rule, f'{p.file}:parse_string:line-offset')
     if not ok:
         ctx.finding(rule, f'{p.file}:parse_string:line-offset',
@@ -181,9 +190,8 @@ def source_positions(ctx):
                     'node.loc_start', an.file, an.line)
     # Block.create copies positions from start/end statements
     bc = repo.func('qbee.stmt', 'Block.create')
-    txt = unparse(bc.node)
-    ok = 'block.loc_start = start_stmt.loc_start' in txt and \
-        'block.loc_end = end_stmt.loc_end' in txt
+    ok = pat.has('_B.loc_start = start_stmt.loc_start', bc.node) and \
+        pat.has('_B.loc_end = end_stmt.loc_end', bc.node)
     ctx.instance(rule, f'{bc.file}:Block.create')
     if not ok:
         ctx.finding(rule, f'{bc.file}:Block.create',
@@ -198,10 +206,10 @@ def find_stmt_shape(ctx):
              'contains the address (start <= addr < end), the one with the '
              'smallest range')
     f = repo.func('qvm.debug_info', 'DebugInfo.find_stmt')
-    txt = unparse(f.node)
-    ok1 = 'stmt.start_offset <= addr < stmt.end_offset' in txt
-    ok2 = 'non_blocks.sort(key=lambda r: r.end_offset - r.start_offset)' \
-        in txt and 'return non_blocks[0]' in txt
+    from .. import pat
+    ok1 = pat.has('_S.start_offset <= addr < _S.end_offset', f.node)
+    ok2 = pat.has('_NB.sort(key=lambda _R: _R.end_offset - '
+                  '_R.start_offset)\nif _NB:\n    return _NB[0]', f.node)
     ctx.instance(rule, f'{f.file}:DebugInfo.find_stmt',
                  sample={'range_test': ok1, 'smallest_first': ok2})
     if not ok1:
